@@ -21,7 +21,7 @@ def run(tier, seed):
     # (1) chains
     # chains are long histories: a small box (-1..1) and universe (-6..6) keep the witness sets small; the
     # stabilisation judgement (WidenChain) does not depend on them
-    nchains = 10 if tier == "quick" else 90
+    nchains = 10 if tier == "quick" else 60
     hs = [hist.chain_history(ck.rng, i + 1, n=ck.rng.choice([25, 35]), params=ck.rng.choice(c03.PARAMS), stride=True if i < 2 else None)
           for i in range(nchains)]
     fails, knowns, traces = [], [], []
@@ -42,7 +42,7 @@ def run(tier, seed):
     r = tlc("WidenChain", "WidenChain", "c05-chainjudge", env={"DOM_TRACES": tp, "CHAIN_CAP": CAP, "CHAIN_TAIL": TAIL}, cont=True)
     ck.add_tlc(r, "WidenChain")
     # long chains (longer than any legitimate number of relaxations): only the stabilisation judgement
-    nlong = 6 if tier == "quick" else 60
+    nlong = 6 if tier == "quick" else 40
     hl = []
     for i in range(nlong):
         h = hist.chain_history(ck.rng, 5000 + i, n=LONG_N, params=ck.rng.choice(c03.PARAMS), stride=True if i < 2 else None)
@@ -51,7 +51,7 @@ def run(tier, seed):
                 st["ts"] = st["ts"][:2]
         hl.append(h)
     # plain widening with arbitrary (not joined) further values over 4-5 variables in shuffled declaration order
-    nplain = 24 if tier == "quick" else 150
+    nplain = 24 if tier == "quick" else 90
     hplain = [hist.plain_chain_history(ck.rng, 6000 + i, n=LONG_N, params=ck.rng.choice(c03.PARAMS)) for i in range(nplain)]
     # (replayed on the environment-based domains and one representative of every other family: 110-step chains are slow
     # on the disjunctive and term domains)
@@ -109,7 +109,7 @@ def run(tier, seed):
         raise vlib.Broken("WidenChain violated without CHAIN record:\n" + r.out[-2000:])
     ck.sample({"chain_history_first_steps": hs[0]["steps"][:14], "thresholds": hs[0]["steps"][-3].get("ts")})
     # (2) random histories: widening / narrowing steps
-    n2 = 120 if tier == "quick" else 1200
+    n2 = 120 if tier == "quick" else 800
     hs2 = []
     for i in range(n2):
         h = hist.history(ck.rng, 10000 + i, length=10, profile="c05", params=ck.rng.choice(c03.PARAMS))
@@ -120,7 +120,7 @@ def run(tier, seed):
         f2 += f_
         k2 += k_
     # (2a) directed: the result of a widening mutated in place, then widened again
-    nw = 150 if tier == "quick" else 1500
+    nw = 150 if tier == "quick" else 800
     for off in range(0, nw, 500):
         hsw = [hist.widen_mutate_widen_history(ck.rng, 20000 + off + i, params=ck.rng.choice(c03.PARAMS)) for i in range(min(500, nw - off))]
         f_, k_, _ = domops.run_batch(ck, "wmw%d" % off, hsw, doms, box=box, univ=univ, timeout=3000)
@@ -128,7 +128,7 @@ def run(tier, seed):
         k2 += k_
     ck.cov["widen_mutate_widen_histories"] = nw
     # (2b) the same on large magnitudes (thresholds next to values around +-2^25..2^27)
-    n3 = 100 if tier == "quick" else 1200
+    n3 = 100 if tier == "quick" else 800
     for off in range(0, n3, 400):
         hs3 = [hist.large_history(ck.rng, 900000 + off + i, params=ck.rng.choice(c03.PARAMS),
                                   lat=("widen", "widen", "widenjoin", "widenjoin", "narrow", "join", "copy")) for i in range(min(400, n3 - off))]
@@ -138,7 +138,7 @@ def run(tier, seed):
     ck.cov["large_magnitude_family"] = {"name": "large_history", "histories": n3}
     domops.report(ck, fails + f2, knowns + k2, box, univ)
     # (3) termination of analysis runs on loop-heavy programs
-    np_ = 80 if tier == "quick" else 750
+    np_ = 80 if tier == "quick" else 500
     ps = []
     pdoms = progsound.all_domains()
     for i in range(np_):
@@ -160,7 +160,7 @@ def run(tier, seed):
     # recursion whose base case is never met (the exit of the function stays unreachable while its argument grows)
     from checks import c09, intersound
     import intergen
-    ni = 24 if tier == "quick" else 300
+    ni = 24 if tier == "quick" else 200
     ips = []
     for i in range(ni):
         fam = ck.rng.choice([intergen.program, intergen.program, intergen.countdown_program, intergen.mutual_program,
